@@ -56,36 +56,36 @@ type incFail struct{ tok, kind, detail string }
 var tokenRe = regexp.MustCompile(`/(tk[0-9]+)`)
 
 type originRec struct {
-	Token  string
-	Msg    *h1.Msg
-	Node   string
-	ConnID string
-	Gzip   bool // the response was sent gzip-coded
+	Token   string
+	Msg     *h1.Msg
+	Node    string
+	ConnID  string
+	Gzip    bool   // the response was sent gzip-coded
 	RawBody []byte // body bytes as put on the wire (after content coding, before transfer coding)
 }
 
 type clientRec struct {
-	Conn    int
-	Index   int
-	Req     *reqSpec
-	Msg     *h1.Msg
-	Err     error
-	Left    int // unread bytes buffered after the last expected response
+	Conn          int
+	Index         int
+	Req           *reqSpec
+	Msg           *h1.Msg
+	Err           error
+	Left          int // unread bytes buffered after the last expected response
 	ClosedByProxy bool
 }
 
 type h1World struct {
-	env   *core.Env
-	c     *h1Case
-	mu    sync.Mutex
-	ex    map[string]*h1Exchange
-	orig  []*originRec
-	cli   []*clientRec
-	inProgress map[string]*h1.Msg // token -> client-side message being read
-	scheme string
+	env               *core.Env
+	c                 *h1Case
+	mu                sync.Mutex
+	ex                map[string]*h1Exchange
+	orig              []*originRec
+	cli               []*clientRec
+	inProgress        map[string]*h1.Msg // token -> client-side message being read
+	scheme            string
 	incrementalChecks int
-	incFails []incFail
-	void  map[string]bool // exchanges that could not take place because the connection was closed with notice
+	incFails          []incFail
+	void              map[string]bool // exchanges that could not take place because the connection was closed with notice
 }
 
 func (w *h1World) origFor(token string) []*originRec {
